@@ -13,7 +13,7 @@ import (
 func init() {
 	registerProperty(&Property{
 		ID: "C14",
-		Explanation: "Decides structural necessary conditions of the capacity accounting: (R1) on every path after a machine is granted by (*machineManager).Offer exactly one Done(procs) is reached with the same procs expression that was requested, and the cancel function is called on the arm that gives up; (R2) taskProcs/health/lastFailure/index/donec are written only by the manager's event loop and its heap methods, taskProcs only as += in the grant arm and -= in the done arm; (R3) schedule returns a machine only behind the fits-test procs <= maxTaskProcs-taskProcs of the returned machine and pushes shelved pairs back; (R4) every health transition in Do is paired with the matching queue move; (R5) request/machine orderings; (R6) the procs clamp precedes Offer and Offer rejects procs<=0; (R7) the local limiter is acquired and released with the same n. Not decided: the arithmetic of need/pending, that no more machines are started than demand justifies, placement optimality, timing.",
+		Explanation: "Decides structural necessary conditions of the capacity accounting: (R1) on every path after a machine is granted by (*machineManager).Offer exactly one Done(procs) is reached with the same procs expression that was requested, and the cancel function is called on the arm that gives up; (R2) taskProcs/health/lastFailure/index/donec are written only by the manager's event loop and its heap methods, taskProcs only as += in the grant arm and -= in the done arm; (R3) schedule returns a machine only behind the fits-test procs <= maxTaskProcs-taskProcs of the returned machine and pushes shelved pairs back; (R4) every health transition in Do is paired with the matching queue move; (R5) request/machine orderings; (R6) the procs clamp precedes Offer and Offer rejects procs<=0; (R7) the local limiter is acquired and released with the same n; (R8) the demand counter is written only as += procs where a request is accepted and -= procs where a task is done or a still-queued request is cancelled, the pending counter only as += count×machprocs where machines are requested and -= machprocs×(started+failed) where the batch reports back, and the count handed to startMachines is (as a linear form, whatever the spelling) min(demand, parallelism limit) − machines held (healthy and on probation) − pending, rounded up to whole machines, behind a guard that establishes a positive shortfall against both bounds. Not decided: the numeric behaviour of that arithmetic over histories, placement optimality, timing.",
 		Rules: []Rule{
 			{ID: "C14-R1", Doc: "every machine granted by Offer is returned by exactly one Done(procs) on every exit; cancel is called when giving up", Run: c14r1},
 			{ID: "C14-R2", Doc: "load and health fields have a single writer (the manager loop)", Run: c14r2},
@@ -22,6 +22,7 @@ func init() {
 			{ID: "C14-R5", Doc: "request and machine orderings", Run: c14r5},
 			{ID: "C14-R6", Doc: "procs clamp before Offer; Offer rejects non-positive procs; machprocs>=1", Run: c14r6},
 			{ID: "C14-R7", Doc: "local limiter Acquire(n)/Release(n) pairing", Run: c14r7},
+			{ID: "C14-R8", Doc: "demand accounting: need/pending are written where the matching event is consumed; machine starts are capped by demand and the parallelism limit, less present and pending capacity", Run: c14r8},
 		},
 	})
 }
@@ -662,15 +663,15 @@ func c14r3(c *RC) {
 		}
 		switch cn {
 		case "container/heap.Pop":
-			if expr(call.Args[0]) == "schedQ" {
+			if queueRole(fn.Pkg, call.Args[0]) == "req" {
 				popReq = true
-			} else if expr(call.Args[0]) == "machQ" {
+			} else if queueRole(fn.Pkg, call.Args[0]) == "mach" {
 				popMach = true
 			}
 		case "container/heap.Push":
-			if expr(call.Args[0]) == "schedQ" {
+			if queueRole(fn.Pkg, call.Args[0]) == "req" {
 				pushReq = true
-			} else if expr(call.Args[0]) == "machQ" {
+			} else if queueRole(fn.Pkg, call.Args[0]) == "mach" {
 				pushMach = true
 			}
 		}
@@ -688,10 +689,10 @@ func c14r3(c *RC) {
 				hasReq, hasMach := false, false
 				ast.Inspect(lit.Body, func(n ast.Node) bool {
 					if call, ok := n.(*ast.CallExpr); ok && fn.Pkg.CalleeName(call) == "container/heap.Push" && len(call.Args) > 0 {
-						if expr(call.Args[0]) == "schedQ" {
+						if queueRole(fn.Pkg, call.Args[0]) == "req" {
 							hasReq = true
 						}
-						if expr(call.Args[0]) == "machQ" {
+						if queueRole(fn.Pkg, call.Args[0]) == "mach" {
 							hasMach = true
 						}
 					}
@@ -716,7 +717,7 @@ func c14r3(c *RC) {
 		for _, call := range callsIn(f.Body) {
 			if _, ok := f.Pkg.isCall(call, "exec.schedule"); ok && len(call.Args) == 2 {
 				ncall++
-				c.Check(expr(call.Args[1]) == "&machQ", f.QName()+"|schedule-on-healthy-queue", pr.Pos(call.Pos()),
+				c.Check(queueRole(f.Pkg, call.Args[1]) == "mach", f.QName()+"|schedule-on-healthy-queue", pr.Pos(call.Pos()),
 					"schedule is offered a queue other than the queue of healthy machines: "+expr(call.Args[1]))
 			}
 		}
@@ -780,15 +781,15 @@ func c14r4(c *RC) {
 					return true
 				}
 				cn := fn.Pkg.CalleeName(call)
-				q := strings.TrimPrefix(expr(call.Args[0]), "&")
+				q := queueRole(fn.Pkg, call.Args[0])
 				switch {
-				case cn == "container/heap.Remove" && q == "machQ":
+				case cn == "container/heap.Remove" && q == "mach":
 					o.rmMach = true
-				case cn == "container/heap.Remove" && q == "probation":
+				case cn == "container/heap.Remove" && q == "prob":
 					o.rmProb = true
-				case cn == "container/heap.Push" && q == "machQ":
+				case cn == "container/heap.Push" && q == "mach":
 					o.pushMach = true
-				case cn == "container/heap.Push" && q == "probation":
+				case cn == "container/heap.Push" && q == "prob":
 					o.pushProb = true
 				}
 				return true
@@ -903,6 +904,7 @@ func c14r5(c *RC) {
 			return true
 		})
 		i, j := paramNames(fn)
+		lessRecv = recvOf(fn)
 		okPrio := prioCmp != nil && lessLike(prioCmp, i, j, "priority", true)
 		c.Check(okPrio, fq+"|priority-ascending", pr.Pos(fn.Body.Pos()), "requests are no longer ordered by ascending priority value")
 		okProcs := procsCmp != nil && lessLike(procsCmp, i, j, "procs", false)
@@ -940,6 +942,7 @@ func c14r5(c *RC) {
 	if fn := c.MustFn("exec.machineQ.Less"); fn != nil {
 		fq := fn.QName()
 		i, j := paramNames(fn)
+		q := recvOf(fn)
 		// free(i) > free(j)  i.e. q[j].max-q[j].task < q[i].max-q[i].task
 		ok := false
 		ast.Inspect(fn.Body, func(n ast.Node) bool {
@@ -956,7 +959,7 @@ func c14r5(c *RC) {
 				if !isS || s.Op != token.SUB {
 					return false
 				}
-				return expr(s.X) == "q["+idx+"].maxTaskProcs" && expr(s.Y) == "q["+idx+"].taskProcs"
+				return expr(s.X) == q+"["+idx+"].maxTaskProcs" && expr(s.Y) == q+"["+idx+"].taskProcs"
 			}
 			switch be.Op {
 			case token.LSS:
@@ -983,10 +986,12 @@ func paramNames(fn *Func) (string, string) {
 	return "i", "j"
 }
 
+var lessRecv = "q"
+
 // lessLike: be compares q[i].f with q[j].f ascending (asc) or descending.
 func lessLike(be *ast.BinaryExpr, i, j, f string, asc bool) bool {
 	l, r := expr(be.X), expr(be.Y)
-	li, lj := "q["+i+"]."+f, "q["+j+"]."+f
+	li, lj := lessRecv+"["+i+"]."+f, lessRecv+"["+j+"]."+f
 	switch be.Op {
 	case token.LSS:
 		if asc {
@@ -1021,7 +1026,8 @@ func c14r6(c *RC) {
 				continue
 			}
 			isGuard := (be.Op == token.LEQ && expr(be.Y) == "0") || (be.Op == token.LSS && expr(be.Y) == "1")
-			if isGuard && expr(be.X) == "procs" {
+			_, procsParam := paramNames(fn)
+			if isGuard && expr(be.X) == procsParam {
 				for _, call := range callsIn(ifs.Body) {
 					if !fn.Pkg.mayReturn(call) {
 						guard = true
@@ -1036,20 +1042,28 @@ func c14r6(c *RC) {
 	if fn := c.MustFn("exec.newMachineManager"); fn != nil {
 		fq := fn.QName()
 		ok := false
+		// the local that initialises the machprocs field of the manager
+		mpVar := "machprocs"
+		ast.Inspect(fn.Body, func(n ast.Node) bool {
+			if kv, isKV := n.(*ast.KeyValueExpr); isKV && expr(kv.Key) == "machprocs" {
+				mpVar = expr(kv.Value)
+			}
+			return true
+		})
 		inspectNoLit(fn.Body, func(n ast.Node) bool {
 			ifs, isIf := n.(*ast.IfStmt)
 			if !isIf {
 				return true
 			}
 			be, isBe := ast.Unparen(ifs.Cond).(*ast.BinaryExpr)
-			if !isBe || expr(be.X) != "machprocs" {
+			if !isBe || expr(be.X) != mpVar {
 				return true
 			}
 			if !((be.Op == token.LSS && expr(be.Y) == "1") || (be.Op == token.LEQ && expr(be.Y) == "0")) {
 				return true
 			}
 			for _, st := range ifs.Body.List {
-				if a, isA := st.(*ast.AssignStmt); isA && expr(a.Lhs[0]) == "machprocs" && expr(a.Rhs[0]) == "1" {
+				if a, isA := st.(*ast.AssignStmt); isA && expr(a.Lhs[0]) == mpVar && expr(a.Rhs[0]) == "1" {
 					ok = true
 				}
 			}
@@ -1261,4 +1275,30 @@ func c14r7(c *RC) {
 	if nEx == 0 {
 		c.Undecide("%s: no exit after Acquire", fq)
 	}
+}
+
+// queueRole classifies a heap operand by its static type: "req" for the
+// schedule request queue, "mach" for the healthy-machine queue, "prob" for the
+// probation queue.
+func queueRole(pk *Pkg, e ast.Expr) string {
+	tv := pk.Info.Types[e]
+	if tv.Type == nil {
+		return ""
+	}
+	switch namedQName(tv.Type) {
+	case "exec.scheduleRequestQ":
+		return "req"
+	case "exec.machineQ":
+		return "mach"
+	case "exec.machineFailureQ":
+		return "prob"
+	}
+	return ""
+}
+
+func recvOf(fn *Func) string {
+	if fn.Decl != nil && fn.Decl.Recv != nil && len(fn.Decl.Recv.List) == 1 && len(fn.Decl.Recv.List[0].Names) == 1 {
+		return fn.Decl.Recv.List[0].Names[0].Name
+	}
+	return ""
 }
